@@ -228,6 +228,15 @@ def direct_cases(rng):
     add("mprod", "more modes than factor matrices", True, lambda x3=x3: x3.mprod([torch.ones(2, 3, dtype=torch.float64)], [0, 2]))
     add("mprod", "more factor matrices than modes", True, lambda x3=x3: x3.mprod([torch.ones(2, 3, dtype=torch.float64), torch.ones(2, 2, dtype=torch.float64)], [0]))
     add("dot(axis)", "an axis named twice", False, lambda x3=x3: torchtt.dot(x3, T(rng, [3, 2]), [0, 0, 2]))
+    # the TT layer: an input whose trailing shape is not size_in (too few dimensions, a singleton where a mode is expected), size lists of different length
+    mkL = lambda si, so, rk: torchtt.nn.LinearLayerTT(si, so, rk, dtype=torch.float64)
+    add("LinearLayerTT.forward", "input with fewer dimensions than size_in", False, lambda: mkL([2, 3, 4], [3, 4, 5], [1, 2, 2, 1])(torch.ones(2, dtype=torch.float64)))
+    add("LinearLayerTT.forward", "input with a singleton first mode where size_in has 2", False, lambda: mkL([2, 3, 4], [3, 4, 5], [1, 2, 2, 1])(torch.ones(1, 3, 4, dtype=torch.float64)))
+    add("LinearLayerTT.forward", "input with a singleton middle mode where size_in has 3", False, lambda: mkL([2, 3, 4], [3, 4, 5], [1, 2, 2, 1])(torch.ones(2, 1, 4, dtype=torch.float64)))
+    add("LinearLayerTT.forward", "batched input with a singleton mode", False, lambda: mkL([2, 3], [3, 2], [1, 2, 1])(torch.ones(5, 1, 3, dtype=torch.float64)))
+    add("LinearLayerTT.forward", "input with a wrong mode size", False, lambda: mkL([2, 3, 4], [3, 4, 5], [1, 2, 2, 1])(torch.ones(2, 3, 5, dtype=torch.float64)))
+    add("LinearLayerTT", "size_in shorter than size_out", False, lambda: mkL([2, 3], [3, 4, 5], [1, 2, 1]))
+    add("LinearLayerTT", "size_out shorter than size_in", False, lambda: mkL([2, 3, 4], [3, 4], [1, 2, 2, 1]))
     # cores that are not torch tensors (the constructor documents a list of torch tensors): no object may come back whose full() then fails
     add("TT(cores)", "numpy arrays as cores", False, lambda: torchtt.TT([np.ones((1, 2, 2)), np.ones((2, 3, 1))]))
     add("TT(cores)", "one numpy array among the cores", False, lambda: torchtt.TT([torch.ones(1, 2, 2, dtype=torch.float64), np.ones((2, 3, 1))]))
